@@ -40,6 +40,7 @@ fn main() {
         "ord-cases" => ord::cases(rest),
         "ord-props" => ord::props(rest),
         "sk-props" => sk::props(rest),
+        "sk-mc" => sk::mc(rest),
         "pmh-props" => pmh::props(rest),
         "pmh-mc" => pmh::mc(rest),
         "pmh-props-replay" => pmh::props_replay(rest),
